@@ -5,6 +5,7 @@
 #[path = "../../common/spec.rs"]
 pub mod spec;
 
+#[path = "../../common/arena.rs"]
 pub mod arena;
 pub mod lockstep;
 
